@@ -315,6 +315,9 @@ func PublishContext[T any](bus *EventBus, ctx context.Context, event T) {
 		bus.beforePublishCtx(ctx, eventType, event)
 	}
 
+	// Persist the event before it is delivered (no-op without a store)
+	bus.persistEvent(ctx, eventType, event)
+
 	// Get handlers from appropriate shard
 	shard := bus.getShard(eventType)
 	shard.mu.RLock()
